@@ -4,7 +4,7 @@ import ast
 from ..core import rule
 from ..index import AnalysisError, dotted, src, walk_no_nested, PKG, names_in
 from ..cfg import CFG
-from ..util import node_calls, own_expr
+from ..util import node_calls, own_expr, reach_expr, pred_is
 from .slots import FEATURES, MOLECULE
 
 CLS = 'FeatureContainer'
@@ -403,36 +403,46 @@ def r4(ctx):
     mod = ctx.ix.module(FEATURES)
     if len(adds) != 1:
         raise AnalysisError('findFeaturesBetween: hits.add not found')
-    guards = []
+    # the scan loop and the condition under which a scanned feature is reported: the reach condition of the `add` inside one iteration must
+    # be (closed intervals overlap) and (no strand requested or same strand) - nested ifs, one combined test or continue guards alike
+    wl = None
     p = mod.parent[adds[0]]
-    while p is not None and not isinstance(p, ast.While):
-        if isinstance(p, ast.If):
-            child_in_body = any(any(x is adds[0] for x in ast.walk(b)) for b in p.body)
-            guards.append((p.test, child_in_body))
+    while p is not None and p is not f:
+        if isinstance(p, (ast.While, ast.For)):
+            wl = p
+            break
         p = mod.parent.get(p)
-    ok = False
-    detail = 'overlap test not found'
-    for t, pol in guards:
-        if {hs, he} <= names_in(t) and {ss, se} <= names_in(t):
-            ncase, bad = check_pred(t, lambda e: not (e['he'] < e['ss'] or e['hs'] > e['se']), symbols=['ss', 'se', 'hs', 'he'], constraint=cons, atom_name=lambda x: ren.get(src(x)))
-            ctx.counters['abstract_cases'] += ncase
-            ok = not bad and pol
-            detail = f'overlap test `{src(t)}` over {ncase} orderings (incl. zero-length features and ranges) ' + ('== closed intervals overlap' if not bad else
-                     f'differs at {bad[0]["case"]}: a feature ' + ('is missed' if not bad[0]['code'] else 'is reported although it does not overlap'))
-            ctx.emit('C16-R4', ok, FEATURES, t, 'findFeaturesBetween ' + detail, key='between:overlap-predicate', witness=bad[0] if bad else None,
-                     what='findFeaturesBetween: overlap test is not the closed-interval overlap')
-    if not ok and detail == 'overlap test not found':
-        ctx.emit('C16-R4', False, FEATURES, f, 'findFeaturesBetween: ' + detail, key='between:overlap-predicate', undecided=True)
-    stop = [(t, pol) for t, pol in guards if names_in(t) == {hs, se}]
-    if stop:
-        t, pol = stop[0]
-        ncase, bad = check_pred(t, lambda e: e['hs'] > e['se'], symbols=['hs', 'se'], atom_name=lambda x: ren.get(src(x)))
-        ctx.emit('C16-R4', not bad and not pol, FEATURES, t, f'scan stops when `{src(t)}` (features are sorted by start)' if not bad else f'scan stop differs: {bad[0]}', key='between:scan-stop')
-    st = [(t, pol) for t, pol in guards if 'strand' in src(t) and hstrand in names_in(t)]
-    if st:
-        t = st[0][0]
-        ncase, bad = check_pred(t, lambda e: e['none'] or e['same'], symbols=[], atom_name=lambda x: {'strand is None': 'none', f'strand == {hstrand}': 'same'}.get(src(x)), extra_bools=['none', 'same'])
-        ctx.emit('C16-R4', not bad, FEATURES, t, f'strand filter `{src(t)}` == no strand requested or same strand' if not bad else f'strand filter differs: {bad[0]}', key='between:strand-filter')
+    if wl is None:
+        raise AnalysisError('findFeaturesBetween: scan loop not found')
+    E = reach_expr(wl.body, adds[0])
+
+    def atomE(x):
+        t = src(x)
+        if t == 'strand is None':
+            return 'none'
+        if t in (f'strand == {hstrand}', f'{hstrand} == strand'):
+            return 'same'
+        if isinstance(x, ast.Compare):
+            return None
+        return ren.get(t)
+    try:
+        ncase, bad = check_pred(E, lambda e: (not (e['he'] < e['ss'] or e['hs'] > e['se'])) and (e['none'] or e['same']), symbols=['ss', 'se', 'hs', 'he'],
+                                constraint=cons, atom_name=atomE, extra_bools=['none', 'same'])
+        ctx.counters['abstract_cases'] += ncase
+        ctx.emit('C16-R4', not bad, FEATURES, adds[0], f'findFeaturesBetween reports a scanned feature iff `{src(E)}`: over {ncase} orderings (incl. zero-length features and ranges) ' +
+                 ('== closed intervals overlap and the strand matches' if not bad else f'differs at {bad[0]["case"]}: a feature ' + ('is missed' if not bad[0]['code'] else 'is reported although it should not')),
+                 key='between:overlap-predicate', witness=bad[0] if bad else None, what='findFeaturesBetween: overlap test is not the closed-interval overlap')
+        ctx.emit('C16-R4', not bad, FEATURES, adds[0], 'strand filter == no strand requested or same strand (part of the report condition)', key='between:strand-filter', nontrivial=False)
+    except AnalysisError as ex:
+        ctx.emit('C16-R4', False, FEATURES, adds[0], f'findFeaturesBetween: report condition `{src(E)}` not interpretable: {ex}', key='between:overlap-predicate', undecided=True)
+    # the scan stops (break, or the loop flag is cleared) exactly when the feature starts behind the range (features are sorted by start)
+    flagnames = names_in(wl.test) if isinstance(wl, ast.While) else set()
+    stops = [x for x in walk_no_nested(wl) if isinstance(x, ast.Break)] + \
+        [x for x in walk_no_nested(wl) if isinstance(x, ast.Assign) and isinstance(x.targets[0], ast.Name) and x.targets[0].id in flagnames and isinstance(x.value, ast.Constant) and x.value.value is False]
+    if len(stops) == 1:
+        S = reach_expr(wl.body, stops[0])
+        oks = pred_is(S, lambda e: e['hs'] > e['se'], {hs: 'hs', se: 'se'})
+        ctx.emit('C16-R4', oks, FEATURES, stops[0], f'scan stops when `{src(S)}`' + (' == feature start > range end (features are sorted by start)' if oks else ' - differs from "feature start > range end"'), key='between:scan-stop')
     ends = [c for c in walk_no_nested(f) if isinstance(c, ast.Call) and isinstance(c.func, ast.Attribute) and c.func.attr == 'update' and src(c.func.value) == hitsvar]
     pts = sorted(src(c.args[0]) for c in ends)
     ok = len(ends) == 2 and any(ss in p_ for p_ in pts) and any(se in p_ for p_ in pts)
